@@ -339,6 +339,8 @@ def gen_cases(tier, rng):
         for j in range(per):
             cases.append({"prop": PROP, "core": "opaque:" + name, "mode": mode, "ops": _history(rng, "opaque:" + name, mode),
                           "shift": rng.choice([0, 7, 1000]) if j % 2 else 0, "range": rng.random() < 0.5})
+    for cc in cases:
+        cc.setdefault("other", rng.random() < 0.3)      # a second object of the same kind is used in between
     return cases
 
 
